@@ -438,6 +438,37 @@ def t5(prog: Program, chk: Check) -> None:
                 function=f"{ci.name}")
 
 
+# --------------------------------------------------------------------- T6
+def t6(prog: Program, chk: Check) -> None:
+    chk.rule("T6", "a front end records the result of every back-end step in its persistent "
+             "dynamics before it asks for the next step (each step is its own transaction): no "
+             "path leads from one stepping call to the next without passing _dynamics.add(...)",
+             floor=3)
+    for q in ("tempo:Tempo.compute", "tempo:MeanFieldTempo.compute", "tempo:GibbsTempo.compute"):
+        u = prog.unit(q)
+        g = CFG(u.node, exc_edges=False)
+        chk.saw(u, g)
+        steps = {n.id for n in g.nodes if not n.copy_of
+                 and any(dotted(c.func) in FRONT_ENDS[q][0] for c in n.calls())}
+        recs = {n.id for n in g.nodes
+                if any(method_call(c) == ("self._dynamics", "add") for c in n.calls())}
+        if not steps:
+            raise AnalysisError(f"T6: stepping call vanished from {q}")
+        bad = None
+        for s_ in steps:
+            starts = [b for (b, l) in g.succ[s_] if b not in recs]
+            p = g.find_path(starts, lambda x: x in steps, blocked=lambda x: x in recs)
+            if p is not None:
+                bad = [s_] + p
+        # the record uses the step/state returned by that very call (checked under C13 G3)
+        chk.add("T6", u, "each step recorded before the next step is taken", bad is None,
+                "" if bad is None else
+                "results of completed steps are only held in local variables while further steps "
+                "(and user callables) run: if one of them raises, the back end has advanced but "
+                "the dynamics have a hole, and a repeated compute() continues silently",
+                path=None if bad is None else g.describe_path(bad, u.loc)[:8])
+
+
 # --------------------------------------------------------------------- T2
 GETTERS = ["tempo:Tempo.get_dynamics", "tempo:MeanFieldTempo.get_dynamics",
            "tempo:GibbsTempo.get_dynamics", "tempo:GibbsTempo.get_state",
@@ -589,6 +620,7 @@ def run(prog: Program, chk: Check) -> None:
     chk.extra["t3_exceptions"] = {" | ".join(k): v for k, v in T3_EXCEPTIONS.items()}
     t1(prog, chk)
     t5(prog, chk)
+    t6(prog, chk)
     t2(prog, chk)
     t3(prog, chk)
     t4(prog, chk)
